@@ -72,10 +72,15 @@ def check_window(ctx, mon_state, rng, width, channels, data, uc):
     r0 = verdict(v, data)
     impl_db = mon_state["last"]
     if impl_db is not None:
-        ctx.count("energy_values_observed")
         if abs(impl_db - model_db) > 1e-9:
-            ctx.violation("energy-value-differs-from-model", {"case": case, "impl_db": impl_db, "model_db": model_db})
-            return
+            # What the hook saw is not the value behind this verdict (an implementation may compute energies per channel and
+            # stop early, in another unit, or not through this function at all).  The statement is about DECISIONS: an energy
+            # that is really wrong shows in the decisions below; the observed value is only trusted - for the exact-boundary
+            # cases - when it agrees with the model.
+            ctx.count("energy_observations_not_usable")
+            impl_db = None
+        else:
+            ctx.count("energy_values_observed")
     ths = [thr0, model_db + 1e-6, model_db - 1e-6, model_db + 3, model_db - 3, -200.0, -201.0, 0.0, 50.0, 300.0]
     ths += [rng.uniform(model_db - 40, model_db + 40) for _ in range(3)]
     results = []
